@@ -191,3 +191,182 @@ def nice_model_prefs(keys, amounts, scalars):
             cs.append(z3.Or(q == 0, rng(q, qlo, 10 ** 5), rng(-q, qlo, 10 ** 5)))
         out.append(cs)
     return out
+
+
+# ================================================================================================ generic operation contracts
+class Op:
+    """A function under contract.  Subclasses provide setup / invoke / emit and, for refutation, finite configurations
+    with a replay builder.  run_op() does: explore all paths on symbolic maps of arbitrary size and discharge with a
+    short budget; send what is not proved to the finite-instantiation search (explicit key sets) where counterexamples
+    are concrete and replayable; retry the rest with the full budget and fallback solvers."""
+    FN = '?'
+    PROPS_OF = {}
+    TIMEOUT = 30000
+    MAX_PATHS = 800
+
+    def case_name(self, case):
+        return '|'.join(str(c) for c in case)
+
+    def setup(self, I, case, finite=None):
+        raise NotImplementedError
+
+    def invoke(self, I, st, case):
+        raise NotImplementedError
+
+    def emit(self, I, out, st, case, finite=None):
+        raise NotImplementedError
+
+    def finite_configs(self, case, nmax):
+        return []
+
+    def inputs(self, I, st, case, finite):
+        return {}
+
+    def prefs(self, I, st, case, finite):
+        return None
+
+    def replay(self, mv, st, case, finite, clause):
+        return []
+
+    def clause_of(self, name):
+        n = name.split('/')[-1]
+        return n
+
+    def serves(self, name, pid):
+        if pid is None:
+            return True
+        cl = self.clause_of(name)
+        for key, pids in self.PROPS_OF.items():
+            if cl == key or cl.startswith(key + '[') or cl.startswith(key + '/') or f'[{key}' in cl:
+                if pid in pids:
+                    return True
+        return False
+
+
+def ladder(I, ob, hyps):
+    tags = I.hyp_tags[:ob.nhyps] + ['extra'] * len(ob.extra)
+    first = [h for h, t in zip(hyps, tags) if t != 'enum']
+    rest = [h for h, t in zip(hyps, tags) if t == 'enum']
+    return [first, rest] if rest else [first]
+
+
+def dedupe(res):
+    order = {'refuted': 0, 'unknown': 1, 'unsupported': 1, 'unsat': 2, 'proved': 3, 'sat': 3}
+    best, count = {}, {}
+    for r in res:
+        k = (r['name'], r['kind'])
+        count[k] = count.get(k, 0) + 1
+        if k not in best or order.get(r['verdict'], 1) < order.get(best[k]['verdict'], 1):
+            if k in best:
+                r['secs'] = r.get('secs', 0) + best[k].get('secs', 0)
+            best[k] = r
+        else:
+            best[k]['secs'] = best[k].get('secs', 0) + r.get('secs', 0)
+    out = []
+    for k, r in best.items():
+        r['paths'] = count[k]
+        out.append(r)
+    return out
+
+
+def run_op(op, pid, case, finite_max=2):
+    cname = op.case_name(case)
+    ctr = contracts()
+    pre = f'{op.FN}/'
+
+    def body(I):
+        st = op.setup(I, case)
+        I.oblige('cover', True, 'cover')
+        out = op.invoke(I, st, case)
+        op.emit(I, out, st, case)
+        I.obls = [ob for ob in I.obls if ob.kind in ('aux', 'cover') or op.serves(ob.name, pid)]
+        return out
+
+    def one_pass(timeout, only, fallbacks):
+        res = []
+        for I, out in vc.explore(body, contracts=ctr, max_paths=op.MAX_PATHS):
+            if isinstance(out, vc.Outcome) and out.kind == 'unsupported':
+                res.append(vc.unsupported_result(f'{pre}unsupported', cname, out.note))
+                continue
+            res += vc.discharge(I, pre, cname, timeout, ladder=ladder, only=only, fallbacks=fallbacks)
+        return dedupe(res)
+    res = one_pass(4000, None, False)
+    failing = [r for r in res if r['kind'] in ('property', 'aux') and r['verdict'] != 'proved'
+               and not r['name'].endswith('/unsupported')]
+    if failing:
+        names = {r['name'] for r in failing if r['kind'] == 'property'}
+        if any(r['kind'] == 'aux' for r in failing):
+            # a loop invariant / helper obligation does not hold for this body: the unbounded argument is void, so
+            # every property clause of the case goes to the finite-instantiation search
+            names |= {r['name'] for r in res if r['kind'] == 'property'}
+            failing = failing + [r for r in res if r['kind'] == 'property' and r not in failing]
+        fin = finite_search(op, case, names, finite_max, pid)
+        retry = set()
+        for r in failing:
+            hit = fin.get(r['name'])
+            if hit:
+                r['verdict'] = 'refuted'
+                r['independent'] = True      # found without invariants/hints: stands whatever the aux obligations say
+                r['model'] = hit.get('model')
+                r['replays'] = hit.get('replays', [])
+                r['backend'] = 'z3api (finite instantiation)'
+                r['note'] = ((r.get('note') or '') + ' | ' + (hit.get('note') or ''))[:600]
+            elif r['verdict'] != 'proved':
+                retry.add(r['name'])
+        if fin:
+            # concrete counterexamples exist: no point in spending the long budget on the remaining obligations
+            for r in failing:
+                if r['name'] in retry and r['verdict'] == 'refuted':
+                    r['verdict'] = 'unknown'
+            retry = set()
+        if retry:
+            again = {r['name']: r for r in one_pass(op.TIMEOUT, retry, True) if r['name'] in retry}
+            for r in failing:
+                if r['name'] in again:
+                    a = again[r['name']]
+                    r.update({k: a[k] for k in ('verdict', 'secs', 'backend') if k in a})
+                    if r['verdict'] == 'refuted':
+                        r['verdict'] = 'unknown'
+                        r['note'] = (r.get('note') or '') + ' [sat on the quantified formula, no finite witness]'
+    if pid is not None:
+        res = [dict(r, name=f'{pid}/' + r['name']) for r in res]
+    return res
+
+
+def finite_search(op, case, names, nmax, pid=None):
+    found = {}
+    if not names:
+        return found
+    ctr = contracts()
+    cname = op.case_name(case)
+    pre = f'{op.FN}/'
+    import time as _time
+    t0 = _time.time()
+    for fin in op.finite_configs(case, nmax):
+        if found and _time.time() - t0 > 25:
+            break
+        if _time.time() - t0 > 120:
+            break
+
+        def body(I, fin=fin):
+            I.__dict__['text_forks'] = False
+            st = op.setup(I, case, finite=fin)
+            out = op.invoke(I, st, case)
+            op.emit(I, out, st, case, finite=fin)
+            I.__dict__['_st'] = st
+            return out
+        for I, out in vc.explore(body, contracts=ctr, max_paths=400):
+            if isinstance(out, vc.Outcome) and out.kind in ('unsupported', 'end'):
+                continue
+            st = I.__dict__['_st']
+            inputs = op.inputs(I, st, case, fin)
+
+            def replay(mv, ob, st=st, fin=fin):
+                return op.replay(mv, st, case, fin, ob.name)
+            for r in vc.discharge(I, pre, cname, 10000, inputs, replay, prefer=op.prefs(I, st, case, fin),
+                                  only={n for n in names if n not in found}):
+                if r['name'] in names and r['name'] not in found and r['verdict'] == 'refuted' and r['kind'] == 'property':
+                    found[r['name']] = r
+        if names <= set(found):
+            break
+    return found
